@@ -239,6 +239,93 @@ func runCertSign(c *hx.Ctx) {
 	}
 	doNormalize()
 
+	// ---- 2b. ONE TBSCertificate object signed several times in a row (CA rotation re-issue): different signers
+	// of the same curve, and self-signing in between with the CA flag flipped on the same object. After EACH
+	// signature: issuer == that signer's fingerprint and the real VerifyCertificate against a pool of that
+	// signer accepts (spec_issued), and the result equals what a fresh request would give (model).
+	nResign := 40 + c.N/12
+	for r := 0; r < nResign; r++ {
+		ca0 := u.cas[c.Intn(len(u.cas))]
+		var same []*cvCA
+		for _, x := range u.cas {
+			if x.c.Curve() == ca0.c.Curve() && x != ca0 {
+				same = append(same, x)
+			}
+		}
+		o := cvLeafOpt{version: cert.Version(1 + c.Intn(2)), curve: ca0.c.Curve(), groups: []int{cvMInside, cvMNone}[c.Intn(2)], nets: cvMInside,
+			unsafe: cvMNone, window: []int{0, 4}[c.Intn(2)], signKey: ca0.key}
+		t := cvLeafTBS(c, u, ca0, o) // the one object
+		selfKey := cvNewKey(c, ca0.c.Curve())
+		nSteps := 2 + c.Intn(3)
+		var steps []string
+		var js []map[string]any
+		issuedAny := false
+		for k := 0; k < nSteps; k++ {
+			var signerCA *cvCA
+			switch {
+			case k == 0 && c.Chance(0.85):
+				signerCA = ca0
+			case c.Chance(0.2):
+				signerCA = nil // self-sign
+			case c.Chance(0.6):
+				signerCA = same[c.Intn(len(same))]
+				for tries := 0; tries < 20 && !(strings.HasPrefix(signerCA.kind, "open") || strings.HasPrefix(signerCA.kind, "unsafe") || strings.HasPrefix(signerCA.kind, "subsec")); tries++ {
+					signerCA = same[c.Intn(len(same))]
+				}
+			default:
+				signerCA = same[c.Intn(len(same))]
+			}
+			var signer cert.Certificate
+			key := selfKey
+			sl := hx.None()
+			if signerCA != nil {
+				signer, key = signerCA.c, signerCA.key
+				sl = hx.Some(signerCA.name)
+			}
+			t.IsCA = signerCA == nil // flipped on the same object so that the guards let the signature through
+			if c.Chance(0.1) {
+				t.IsCA = !t.IsCA
+			}
+			keymatch := signerCA != nil
+			via := c.Chance(0.5)
+			tbsLit, tbsJS := csTbsLit(t), csTbsJSON(t)
+			var rc cert.Certificate
+			var err error
+			if via {
+				rc, err = t.Sign(signer, key.curve, key.priv)
+			} else {
+				rc, err = t.SignWith(signer, key.curve, key.signer(c))
+			}
+			res := hx.None()
+			d := map[string]any{"tbs": tbsJS, "via": map[bool]string{true: "Sign", false: "SignWith"}[via], "accepted": err == nil}
+			if signerCA != nil {
+				d["signer"] = signerCA.kind
+				d["signer_fp"] = signerCA.fp
+			} else {
+				d["signer"] = "self"
+			}
+			if err != nil {
+				d["err"] = err.Error()
+			} else {
+				issuedAny = true
+				verd, vjs := "[]", []map[string]any(nil)
+				sigok := false
+				if signer != nil {
+					sigok = rc.CheckSignature(signer.PublicKey())
+					verd, vjs, _ = csVerdicts(signer, rc)
+				} else {
+					sigok = rc.CheckSignature(rc.PublicKey())
+				}
+				res = hx.Some(hx.Tuple(cvCertLit(rc, "", u.names), hx.Bool(csIsNormalized(rc)), hx.Bool(sigok), verd))
+				d["issuer"] = rc.Issuer()
+				d["verify"] = vjs
+			}
+			steps = append(steps, hx.Tuple(sl, hx.N(uint64(uint32(key.curve))), hx.Bool(keymatch), tbsLit, hx.Bool(via), res))
+			js = append(js, d)
+		}
+		cw.Add(hx.App("CertSign_corr.CResign", hx.List(steps)), "resign", issuedAny, map[string]any{"op": "resign", "steps": js})
+	}
+
 	for cw.Total() < c.N {
 		ca := u.cas[c.Intn(len(u.cas))]
 		o := cvLeafOpt{version: ca.c.Version(), curve: ca.c.Curve(), groups: cvMInside, nets: cvMInside, unsafe: cvMInside, signKey: ca.key}
@@ -592,6 +679,7 @@ func runCertSign(c *hx.Ctx) {
 	}
 	cw.Close("p256.Normalize/Swap/IsNormalized on edge and random s; TBSCertificate.Sign and SignWith over 28 signer CAs x TBS crossing each constraint " +
 		"(inside/edge/outside), CA flag, self-signing, key of another CA, key of the other curve than the signer certificate's (known finding F23, emitted first), key-vs-TBS curve mismatch, unknown version/curve, every validate rule; " +
+		"one TBSCertificate object signed 2-4 times in a row by different signers / self (re-issue), each result checked like a fresh one; " +
 		"each issued certificate verified with the real VerifyCertificate against a pool of its signer at nb, na, middle, nb-1ns, na+1ns and checked for low-S; " +
 		"nebula-cert ca / sign binary on 6 CAs x 8 requests; non-trivial = certificate issued (or 0 < s < n); distinct by literal")
 }
